@@ -284,7 +284,15 @@ def problems(case):
         return [{"tool": case["tool"], "shape": "", "error_class": "format_fallback",
                  "detail": first.get("class", ""), "where": first.get("where", "")}]
     out, seen = [], set()
-    for c in case["obs"].get("classes") or [{"class": "other", "detail": "bad outcome without message"}]:
+    classes = case["obs"].get("classes") or [{"class": "other", "detail": "bad outcome without message"}]
+    # an unused import / variable in the DEFINITION file is a malformed input (outside the
+    # property's domain), not something a generator did
+    own = [c for c in classes if not (c.get("where") == "definition"
+                                      and c["class"] in ("unused_import", "declared_not_used"))]
+    if not own:
+        return [{"tool": case["tool"], "shape": "", "error_class": "invalid_definition", "detail": "",
+                 "where": "definition"}]
+    for c in own:
         shape = ""
         if case["tool"] == "genum" and traits_on:
             for s, pred in C12_EXPLAINS:
@@ -359,6 +367,18 @@ def reductions(spec):
             s = copy.deepcopy(spec)
             s["enum"]["underlying"] = "int"
             out.append(s)
+    elif spec["tool"] == "multi":
+        parts = spec.get("parts") or []
+        if len(parts) > 1:
+            for i in range(len(parts)):
+                s = copy.deepcopy(spec)
+                del s["parts"][i]
+                out.append(s)
+        for i, part in enumerate(parts):
+            for r in reductions(part):
+                s = copy.deepcopy(spec)
+                s["parts"][i] = r
+                out.append(s)
     elif spec["tool"] == "gerror":
         g = spec["gerror"]
         for i in range(len(g.get("fields") or [])):
